@@ -62,6 +62,7 @@ MUT = {
  "c08-tmpname-143": ("C08", "lib/python/pyflyby/_file.py", '    temp_filename = Filename("%s.tmp.%s" % (filename, os.getpid(),))\n', '    _d, _b = os.path.split(str(filename))\n    temp_filename = Filename(os.path.join(_d, ("%s.tmp.%s" % (_b, os.getpid()))[:143]))\n'),
  "c08-oswrite-short": ("C08", "lib/python/pyflyby/_file.py", '    write_file(temp_filename, data)\n    try:\n        st = os.stat(str(filename))', '    _fd = os.open(str(temp_filename), os.O_WRONLY | os.O_CREAT | os.O_TRUNC | os.O_NOFOLLOW, 0o666)\n    try:\n        os.write(_fd, data.joined.encode("utf-8"))\n    finally:\n        os.close(_fd)\n    try:\n        st = os.stat(str(filename))'),
  "c09-exit-len-errors": ("C09", "lib/python/pyflyby/_cmdline.py", "        raise SystemExit(msg)", "        print(msg, file=sys.stderr)\n        raise SystemExit(len(errors))"),
+ "c09-follow-textual-dotdot": ("C09", "lib/python/pyflyby/_cmdline.py", '        m.filename = m.filename.realpath', '        _p = str(m.filename)\n        for _ in range(40):\n            if not os.path.islink(_p):\n                break\n            _p = str(Filename(os.path.join(os.path.dirname(_p), os.readlink(_p))))\n        m.filename = Filename(_p)'),
  "c08-memoized-suffix": ("C08", "lib/python/pyflyby/_file.py", 'def atomic_write_file(filename: Filename, data):\n    assert isinstance(filename, Filename)\n    data = FileText(data)\n    temp_filename = Filename("%s.tmp.%s" % (filename, os.getpid(),))', '_SUFFIX = []\n\ndef _temp_suffix():\n    if not _SUFFIX:\n        _SUFFIX.append(os.getpid())\n    return _SUFFIX[0]\n\ndef atomic_write_file(filename: Filename, data):\n    assert isinstance(filename, Filename)\n    data = FileText(data)\n    temp_filename = Filename("%s.tmp.%s" % (filename, _temp_suffix(),))'),
  "c08-suffix-at-import": ("C08", "lib/python/pyflyby/_file.py", 'def atomic_write_file(filename: Filename, data):\n    assert isinstance(filename, Filename)\n    data = FileText(data)\n    temp_filename = Filename("%s.tmp.%s" % (filename, os.getpid(),))', '_TMP_SUFFIX = os.getpid()\n\ndef atomic_write_file(filename: Filename, data):\n    assert isinstance(filename, Filename)\n    data = FileText(data)\n    temp_filename = Filename("%s.tmp.%s" % (filename, _TMP_SUFFIX,))'),
 }
